@@ -3,12 +3,12 @@
 set -u
 D=$1; cd "$D" || exit 2
 echo "== with change: test suite"; timeout 900 make -f Makefile.gnu test-nanovirt 2>&1 | tail -1
-timeout 900 make -f Makefile.gnu vm >/dev/null 2>&1
+{ timeout 1500 make -f Makefile.gnu -j8 >/dev/null 2>&1; timeout 900 make -f Makefile.gnu vm >/dev/null 2>&1; }
 echo "== with change: demo"; timeout 900 bash SEEDED/demo.sh > /tmp/seed_demo_with.$$ 2>&1; RW=$?; tail -2 /tmp/seed_demo_with.$$; echo "demo exit with change: $RW"
 git apply -R SEEDED/patch.diff || { echo "cannot reverse patch"; exit 2; }
-timeout 900 make -f Makefile.gnu vm >/dev/null 2>&1
+{ timeout 1500 make -f Makefile.gnu -j8 >/dev/null 2>&1; timeout 900 make -f Makefile.gnu vm >/dev/null 2>&1; }
 echo "== without change: demo"; timeout 900 bash SEEDED/demo.sh > /tmp/seed_demo_wo.$$ 2>&1; RO=$?; tail -2 /tmp/seed_demo_wo.$$; echo "demo exit without change: $RO"
 git apply SEEDED/patch.diff
-timeout 900 make -f Makefile.gnu vm >/dev/null 2>&1
+{ timeout 1500 make -f Makefile.gnu -j8 >/dev/null 2>&1; timeout 900 make -f Makefile.gnu vm >/dev/null 2>&1; }
 rm -f /tmp/seed_demo_with.$$ /tmp/seed_demo_wo.$$
 if [ $RW -ne 0 ] && [ $RO -eq 0 ]; then echo "CONFIRMED"; else echo "NOT CONFIRMED"; fi
